@@ -477,7 +477,7 @@ M_PAT = dict(module='MC_UrlPattern', cfg_quick='MC_UrlPattern_quick', cfg_thorou
              timeout=7000)
 for _p in ('C14', 'C15'):
     PROPS[_p].setdefault('models', []).append(M_PAT)
-    PROPS[_p]['workloads'].insert(2, WPAT('tlc-constructor-strings-replayed', w_pat_replay, 1500, 0, replayable=True))
+    PROPS[_p]['workloads'].insert(2, WPAT('tlc-constructor-strings-replayed', w_pat_replay, 1500, 20000, replayable=True))
 
 
 # ---- direction A + B for the C API handle layer: MC_CApi (spec/CApi.tla), replayed on the ASan + LSan build
